@@ -152,8 +152,8 @@ def judge(case, im, mo):
     for k, (op, a, b) in enumerate(zip(case["ops"], im["trace"], mo["trace"])):
         if op["op"] == "steal" and op["v"] != "other":
             stolen.add(op["v"])
-        if op["op"] in ("setattr", "add") and a["out"] == "ok" and op["v"] != "other":
-            stolen.discard(op["v"])
+        if op["op"] in ("setattr", "add") and a["out"] == "ok" and op["v"] != "other" and not (op["op"] == "setattr" and op["key"].startswith("_")):
+            stolen.discard(op["v"])   # filed here again (an assignment to an underscore name files nothing)
         if "corrupt" in a["state"]:
             yield ("pred", f"after op {k} {op}: the container can no longer be inspected: {a['state']['corrupt']}")
             return
